@@ -200,6 +200,21 @@ func (c *Ctl) MergeWindow() (proc string, batches int) {
 	return "", 0
 }
 
+// CountEvSince counts the events with one of the given names logged at or after position from.
+func (c *Ctl) CountEvSince(from int, names ...string) int {
+	c.mu.Lock()
+	defer c.mu.Unlock()
+	n := 0
+	for _, e := range c.events[from:] {
+		for _, nm := range names {
+			if e["ev"] == nm {
+				n++
+			}
+		}
+	}
+	return n
+}
+
 func (c *Ctl) NumEvents() int {
 	c.mu.Lock()
 	defer c.mu.Unlock()
